@@ -1222,6 +1222,8 @@ func run(c *lib.Ctx) {
 	}
 	c.Set("distinct_formats", len(formats))
 	c.Set("requests_issued", issued)
+	h2Phase(c, root)
+	c.Floor("tls_requests_judged_h2", 5)
 
 	// a run that saw too little proves nothing
 	c.Floor("requests_judged", issued*95/100)
